@@ -1,4 +1,5 @@
 import RactorModel.Lemmas.Frames
+import RactorModel.Lemmas.FramesIo
 import RactorModel.Extracted
 
 /-!
@@ -230,6 +231,39 @@ theorem buffer_grows_only_with_received_bytes (len : Nat) (chunks : List Bytes) 
     traceOk 8 8 0 (readN 8 8 chunks).2.2 = true :=
   ⟨readN_traceOk _ _ _, readN_traceOk _ _ _⟩
 
+/-- (a transport that FAILS) When the transport, after delivering the pieces `chunks`, answers the
+next read with an I/O error instead of EOF (every `?` of `read_u64` / `read_n_bytes`), the reader's
+life is still: decoded frames, then exactly one error, then nothing; it does not depend on the
+fragmentation; the frames decoded before the failure are exactly those of the same bytes followed
+by EOF; and the failure is never reported as a clean EOF (stop reason `frame_read_error`, not
+`channel_closed`). -/
+theorem io_error_stops_reader {Msg : Type} (dec : Bytes → Option Msg) (max : Nat) (chunks : List Bytes)
+    (endIo : Bool) :
+    stopsAtFirstError (readFramesIo dec max chunks endIo).1 = true ∧
+    (readFramesIo dec max chunks endIo).1 = (readFramesIo dec max [chunks.flatten] endIo).1 ∧
+    (∀ m, FrameRes.ok m ∈ (readFramesIo dec max chunks endIo).1 ↔ FrameRes.ok m ∈ (readFrames dec max chunks).1) ∧
+    (endIo = true → FrameRes.err FrameErr.eof ∉ (readFramesIo dec max chunks endIo).1) ∧
+    (∀ e, FrameRes.err e ∈ (readFramesIo dec max chunks true).1 → stopReason e = "frame_read_error") := by
+  refine ⟨?_, ?_, ?_, ?_, ?_⟩
+  · simp only [readFramesIo, stops_map_ioEnd]
+    exact readFrames_stops dec max chunks
+  · simp only [readFramesIo]
+    rw [readFrames_fst_eq dec max chunks]
+  · intro m
+    simp only [readFramesIo]
+    exact ok_mem_map_ioEnd endIo _ m
+  · intro h
+    subst h
+    exact no_eof_after_ioEnd _
+  · intro e he
+    have := no_eof_after_ioEnd (readFrames dec max chunks).1
+    cases e with
+    | eof => exact absurd he this
+    | tooLarge => rfl
+    | unalloc => rfl
+    | undecodable => rfl
+    | io => rfl
+
 /-- (round trip) Frames written by `encode_network_message`, each within the limit, are read
 back in order whatever the fragmentation, followed by EOF; every byte is consumed. -/
 theorem frames_roundtrip {Msg : Type} (dec : Bytes → Option Msg) (max : Nat) (ps : List Bytes)
@@ -375,6 +409,114 @@ example :
 example : framesObs (fun p => some p) 4 [[0,0,0,0,0,0,0,5, 1,2,3,4,5]] = ([.err .tooLarge], 8) := by decide
 
 example : metaOk ⟨1700000000000000000, some 1500, [1, 2]⟩ = true := by decide
+
+/-- (an undecodable message harms nobody) Whatever `from_boxed` does with a serialized message that
+is not a message of the actor — return `Err` or panic —, `handle` is not called, the actor keeps
+running with its state untouched, and if the message was a `Call` its reply port is dropped: the
+caller observes an absence, never a value. For the generated decoders (`decodedOf`) this is the
+case exactly when the model's `deserialize` rejects the message. -/
+theorem undecodable_message_harms_nobody (vs : List Variant) (st : ActorSt) (m : SMsg) :
+    (handleMessage st m .err).handled = st.handled ∧ (handleMessage st m .panic).handled = st.handled ∧
+    (handleMessage st m .err).running = st.running ∧ (handleMessage st m .panic).running = st.running ∧
+    (handleMessage st m .err).droppedPorts = st.droppedPorts + (if m.isCall then 1 else 0) ∧
+    (handleMessage st m .panic).droppedPorts = st.droppedPorts + (if m.isCall then 1 else 0) ∧
+    (deserialize vs m = none → (handleMessage st m (decodedOf vs m)).handled = st.handled ∧
+      (handleMessage st m (decodedOf vs m)).running = st.running) ∧
+    (∀ d, deserialize vs m = some d → (handleMessage st m (decodedOf vs m)).handled = st.handled ++ [d]) := by
+  refine ⟨rfl, rfl, rfl, rfl, rfl, rfl, ?_, ?_⟩
+  · intro h; simp [decodedOf, h, handleMessage]
+  · intro d h; simp [decodedOf, h, handleMessage]
+
+/-! ## `Job` messages, reply-port position, reply bridge -/
+
+/-- (`Job::deserialize` rejects) A job message is decoded iff its metadata is present with at
+least 16 bytes, the key decoder accepts the key bytes AND the inner message decodes; a
+`CallReply` never is. In every other case the result is `none` — the message is dropped
+(`undecodable_payload_dropped`), whatever the other parts say. -/
+theorem job_decodes_iff (kty : Ty) (vs : List Variant) (m : SMsg) (md : Option Bytes) :
+    (decodeJob kty vs m md).isSome ↔
+      (m ≠ .callReply ∧ ∃ jm, decodeMeta md = some jm ∧ (decode kty jm.key).isSome ∧ (deserialize vs m).isSome) := by
+  cases m with
+  | callReply => simp [decodeJob]
+  | cast tag args =>
+    simp only [decodeJob]
+    cases hm : decodeMeta md with
+    | none => simp
+    | some jm =>
+      cases hk : decode kty jm.key with
+      | none => simp [hk]
+      | some k => simp [hk]
+  | call tag args =>
+    simp only [decodeJob]
+    cases hm : decodeMeta md with
+    | none => simp
+    | some jm =>
+      cases hk : decode kty jm.key with
+      | none => simp [hk]
+      | some k => simp [hk]
+
+/-- (`Job` round trip) key, options (submit time, `0 < ttl < 2⁶⁴` or none) and the inner message
+of every variant shape survive `Job::serialize` followed by `Job::deserialize`. -/
+theorem job_roundtrip (kty : Ty) (key : Val) (submit : Nat) (ttl : Option Nat) (vs : List Variant)
+    (v : Variant) (vals : List Val) (sm : SMsg) (md : Bytes)
+    (hk : wf kty key = true) (hm : metaOk ⟨submit, ttl, encode kty key⟩ = true)
+    (hv : findVariant vs v.kind v.tag = some v) (hwf : wfFields v.fields vals = true)
+    (hlen : ∀ bs, pack (encodeFields v.fields vals) = some bs → bs.length < wordLimit)
+    (he : encodeJob kty key submit ttl v vals = some (sm, md)) :
+    decodeJob kty vs sm (some md) = some (key, ⟨submit, ttl, encode kty key⟩, v.tag, vals) := by
+  unfold encodeJob at he
+  cases hs : serialize v vals with
+  | none => simp [hs] at he
+  | some sm' =>
+    simp only [hs, Option.map_some, Option.some.injEq, Prod.mk.injEq] at he
+    obtain ⟨rfl, rfl⟩ := he
+    have hd := enum_roundtrip vs v vals sm' hv hwf hs hlen
+    have hmeta := meta_roundtrip _ hm
+    have hkey := builtin_roundtrip kty key hk
+    have hne : sm' ≠ .callReply := by
+      intro h; rw [h] at hd; simp [deserialize] at hd
+    cases sm' with
+    | callReply => exact absurd rfl hne
+    | cast tag args => simp [decodeJob, hmeta, hkey, hd]
+    | call tag args => simp [decodeJob, hmeta, hkey, hd]
+
+/-- (reply port anywhere) For a tuple-style `#[rpc]` variant whose port is the field number
+`idx` of `n + 1` fields: the generated pattern / constructor list has the port exactly at `idx`,
+and removing it gives back the data fields in declaration order — the order in which they are
+packed and unpacked — for EVERY position of the port. -/
+theorem reply_port_position {α : Type} (data : List α) (port : α) (idx : Nat) (h : idx ≤ data.length) :
+    (orderedBindings port data idx).length = data.length + 1 ∧
+    (orderedBindings port data idx)[idx]? = some port ∧
+    dataFieldsOf (orderedBindings port data idx) idx = data := by
+  induction data generalizing idx with
+  | nil =>
+    have : idx = 0 := by simpa using h
+    subst this
+    simp [orderedBindings, dataFieldsOf]
+  | cons d ds ih =>
+    cases idx with
+    | zero => simp [orderedBindings, dataFieldsOf]
+    | succ k =>
+      have := ih k (by simpa using h)
+      simp only [orderedBindings, dataFieldsOf, List.length_cons, List.getElem?_cons_succ, List.eraseIdx_cons_succ]
+      exact ⟨by omega, this.2.1, by rw [show List.eraseIdx (orderedBindings port ds k) k = ds from this.2.2]⟩
+
+/-- (reply value) What the real actor answers on the typed port reaches the caller unchanged
+through the two bridges (`into_bytes` on the callee's node, `from_bytes` on the caller's) for
+every reply type and well-formed value; and a reply whose bytes do not decode (a panic inside
+`from_bytes`, caught) yields no value at all, never a wrong one. -/
+theorem reply_bridge_roundtrip (rt : Ty) (v : Val) (h : wf rt v = true) : replyBridge rt v = some v :=
+  builtin_roundtrip rt v h
+
+example : (orderedBindings "port" ["a", "b"] 1, dataFieldsOf ["a", "port", "b"] 1) = (["a", "port", "b"], ["a", "b"]) := by
+  decide
+
+#print axioms C19.io_error_stops_reader
+#print axioms C19.undecodable_message_harms_nobody
+#print axioms C19.job_decodes_iff
+#print axioms C19.job_roundtrip
+#print axioms C19.reply_port_position
+#print axioms C19.reply_bridge_roundtrip
 
 end C19
 
